@@ -28,13 +28,16 @@ def hier (code : String) : List String := hierOf GGV.Gen.codesByCategory code
 def allCodes (tbl : CodeTable) : List String := tbl.flatMap (fun e => e.2.map (·.1))
 def allCategories (tbl : CodeTable) : List String := tbl.map (·.1)
 
-/-- `codes.GetDocumentationURL`: first `HasPrefix` case wins, else the default -/
-def docUrlOf (base : String) (cases : List (String × String)) (dflt : String) (code : String) : String :=
-  match cases.find? (fun c => c.1.isPrefixOf code) with
-  | some c => base ++ c.2
-  | none => base ++ dflt
+/-- `codes.GetDocumentationURL`: the page chosen — first `HasPrefix` case wins, else the default
+    (prefix test on character lists so that it reduces in the kernel) -/
+def docPageOf (cases : List (String × String)) (dflt : String) (code : String) : String :=
+  match cases.find? (fun c => c.1.toList.isPrefixOf code.toList) with
+  | some c => c.2
+  | none => dflt
 
-def docUrl (code : String) : String :=
-  docUrlOf GGV.Gen.docBase GGV.Gen.docCases GGV.Gen.docDefault code
+def docPage (code : String) : String := docPageOf GGV.Gen.docCases GGV.Gen.docDefault code
+
+/-- the whole URL: base ++ page -/
+def docUrl (code : String) : String := GGV.Gen.docBase ++ docPage code
 
 end GGV.Model
